@@ -3208,3 +3208,109 @@ Proof.
     apply (gone_change_clears_addpath x pol emax raddr cid IPV4_UNICAST 1 None m2 r3 1 _ Hem); [|exact E3].
     intro Hh. apply (Hc2 1 1 _ (Hc1 1 1 None (fun F => ltac:(discriminate F))) Hh).
 Qed.
+
+(* ================================================================ Add-Path sessions: the export map records nothing the neighbour does not hold *)
+Lemma view_after_reach_only_keeps : forall ops d pid v,
+  (forall op, In op ops -> exists d' p nh out s, op = Reach d' p nh out s) ->
+  has_entry v = true -> has_entry (view_after ops d pid v) = true.
+Proof.
+  induction ops as [|op ops IH]; intros d pid v Hall Hv; [exact Hv|].
+  destruct (Hall op (or_introl eq_refl)) as (d' & p & nh & out & s & E). subst op. cbn [view_after].
+  apply IH; [intros o Ho; apply Hall; right; exact Ho|]. destruct ((d' =? d) && (p =? pid)); [reflexivity | exact Hv].
+Qed.
+
+Lemma view_after_reach_in : forall ops d pid v nh out s,
+  (forall op, In op ops -> exists d' p nh' out' s', op = Reach d' p nh' out' s') ->
+  In (Reach d pid nh out s) ops -> has_entry (view_after ops d pid v) = true.
+Proof.
+  induction ops as [|op ops IH]; intros d pid v nh out s Hall Hin; [contradiction|].
+  destruct Hin as [Hin|Hin].
+  - subst op. cbn [view_after]. rewrite !N.eqb_refl. cbn [andb].
+    apply view_after_reach_only_keeps; [intros o Ho; apply Hall; right; exact Ho | reflexivity].
+  - destruct (Hall op (or_introl eq_refl)) as (d' & p & nh' & out' & s' & E). subst op. cbn [view_after].
+    eapply IH; [intros o Ho; apply Hall; right; exact Ho | exact Hin].
+Qed.
+
+(* the ids addpath_reaches leaves in the map are those it found plus those it advertised *)
+Lemma ap_reaches_ids : forall x d rep top m r,
+  addpath_reaches x d rep (EAddPath m) top = Ok r ->
+  exists m', snd r = EAddPath m'
+    /\ forall p, In p (ap_ids m' d) -> In p (ap_ids m d) \/ exists nh out s, In (Reach d p nh out s) (fst r).
+Proof.
+  intros x d rep. induction top as [|[[[pid0 a0] nh0] s0] t IH]; intros m r H.
+  - cbn in H. inversion H; subst. exists m. split; [reflexivity|]. auto.
+  - cbn [addpath_reaches] in H.
+    destruct (negb (em_contains_path (EAddPath m) d pid0) || match rep with Some r0 => r0 =? pid0 | None => false end).
+    + destruct (export_attrs x a0) as [a'|]; cbn [rbind] in H; [|discriminate].
+      destruct (ap_mark_sent m d pid0) as (m1 & E1 & H1). rewrite E1 in H.
+      destruct (addpath_reaches x d rep (EAddPath m1) t) as [r'|] eqn:Er; cbn [rbind] in H; [|discriminate].
+      inversion H; subst r. cbn [fst snd]. destruct (IH m1 r' Er) as (m' & Es & Hi). exists m'. split; [exact Es|].
+      intros p Hp. destruct (Hi p Hp) as [Hp1 | (nh & out & s & Hr)].
+      * rewrite (H1 d), N.eqb_refl in Hp1. apply In_add_n in Hp1. destruct Hp1 as [Hp1|Hp1]; [|left; exact Hp1].
+        subst p. right. exists nh0, a', s0. left. reflexivity.
+      * right. exists nh, out, s. right. exact Hr.
+    + exact (IH m r H).
+Qed.
+
+Theorem C09_export_map_within_view_addpath : forall x pol emax raddr cid c m r,
+  emax <> 1 ->
+  process_change x pol emax raddr cid c (EAddPath m) = Ok r ->
+  exists m', snd r = EAddPath m'
+    /\ forall d pid v0,
+         (In pid (ap_ids m d) -> has_entry v0 = true) ->
+         In pid (ap_ids m' d) -> has_entry (view_after (fst r) d pid v0) = true.
+Proof.
+  intros x pol emax raddr cid c m r Hem H. unfold process_change in H.
+  apply N.eqb_neq in Hem. rewrite Hem in H.
+  destruct (negb (c_any_changed c)).
+  { inversion H; subst. exists m. split; [reflexivity|]. intros d pid v0 Hv Hi. cbn [fst view_after]. auto. }
+  match type of H with rbind (addpath_reaches _ _ _ (fold_left _ ?gone _) ?top) _ = _ =>
+    set (GONE := gone) in *; set (TOP := top) in * end.
+  destruct (ap_fold_withdrawn GONE m (c_dest c)) as (m1 & E1 & Hg & Hgo). rewrite E1 in H.
+  destruct (addpath_reaches x (c_dest c) (c_replaced c) (EAddPath m1) TOP) as [r'|] eqn:Er; cbn [rbind] in H; [|discriminate].
+  inversion H; subst r. clear H. cbn [fst snd].
+  destruct (ap_reaches _ _ _ _ _ _ Er) as (m' & Es & Hk & Hr & Hop & Ho).
+  destruct (ap_reaches_ids _ _ _ _ _ _ Er) as (m'' & Es' & Hids). rewrite Es in Es'. inversion Es'; subst m''.
+  exists m'. split; [exact Es|]. intros d pid v0 Hv Hi.
+  assert (Hreach_only : forall op, In op (fst r') -> exists d' p nh out s, op = Reach d' p nh out s).
+  { intros op Hin. destruct (Hop op Hin) as (p & nh & out & s & E). eauto 6. }
+  rewrite view_after_app.
+  destruct (N.eq_dec d (c_dest c)) as [Hd|Hd].
+  - subst d. destruct (Hids pid Hi) as [Hin1 | (nh & out & s & Hin)].
+    + apply Hg in Hin1. destruct Hin1 as [Hinm Hng].
+      apply view_after_reach_only_keeps; [exact Hreach_only|].
+      rewrite view_after_untouched; [exact (Hv Hinm)|].
+      intros op Hop'. apply in_map_iff in Hop'. destruct Hop' as (g & Hg' & Hgin). subst op. cbn [touches].
+      destruct (g =? pid) eqn:Eg; [apply N.eqb_eq in Eg; subst g; contradiction | apply andb_false_r].
+    + eapply view_after_reach_in; [exact Hreach_only | exact Hin].
+  - rewrite (Ho d Hd), (Hgo d Hd) in Hi.
+    apply view_after_reach_only_keeps; [exact Hreach_only|].
+    rewrite view_after_untouched; [exact (Hv Hi)|].
+    intros op Hin. apply in_map_iff in Hin. destruct Hin as (g & Hg' & _). subst op. cbn [touches].
+    assert (F : c_dest c =? d = false) by (apply N.eqb_neq; congruence). rewrite F. reflexivity.
+Qed.
+
+(* both directions along any history that starts with an empty Add-Path map: the map is exact *)
+Theorem C09_export_map_exact_addpath_history : forall x pol emax raddr cid cs r d pid,
+  emax <> 1 ->
+  run_changes x pol emax raddr cid cs (EAddPath []) = Ok r ->
+  (has_entry (view_after (fst r) d pid None) = true <-> was_sent_path (snd r) d pid).
+Proof.
+  intros x pol emax raddr cid cs r d pid Hem H. split.
+  - intro Hh. destruct (C09_export_map_covers_view_addpath_history _ _ _ _ _ _ _ _ Hem H) as (m' & Es & Hc).
+    unfold was_sent_path. rewrite Es. cbn [em_sent_path_ids]. apply (Hc d pid None); [discriminate | exact Hh].
+  - revert r H. 
+    assert (G : forall cs m r, run_changes x pol emax raddr cid cs (EAddPath m) = Ok r ->
+              exists m', snd r = EAddPath m' /\ forall d pid v0, (In pid (ap_ids m d) -> has_entry v0 = true) ->
+                In pid (ap_ids m' d) -> has_entry (view_after (fst r) d pid v0) = true).
+    { clear cs. induction cs as [|c t IH]; intros m r H.
+      - cbn in H. inversion H; subst. exists m. split; [reflexivity|]. intros d0 p0 v0 Hv Hi. cbn. auto.
+      - cbn [run_changes] in H.
+        destruct (process_change x pol emax raddr cid c (EAddPath m)) as [r1|] eqn:E1; [|discriminate]. cbn [rbind] in H.
+        destruct (C09_export_map_within_view_addpath _ _ _ _ _ _ _ _ Hem E1) as (m1 & Es1 & H1). rewrite Es1 in H.
+        destruct (run_changes x pol emax raddr cid t (EAddPath m1)) as [r2|] eqn:E2; [|discriminate]. cbn [rbind] in H.
+        inversion H; subst r. cbn [fst snd]. destruct (IH m1 r2 E2) as (m' & Es & H2). exists m'. split; [exact Es|].
+        intros d0 p0 v0 Hv Hi. rewrite view_after_app. apply (H2 d0 p0 _ (H1 d0 p0 v0 Hv) Hi). }
+    intros r H Hs. destruct (G cs [] r H) as (m' & Es & Hw). unfold was_sent_path in Hs. rewrite Es in Hs. cbn [em_sent_path_ids] in Hs.
+    apply (Hw d pid None); [intro F; contradiction | exact Hs].
+Qed.
